@@ -76,6 +76,48 @@ theorem action_deposit_asset (s : State) (signer : String) (pos : Nat) (act : Ac
     · split at h <;> simp at h
   all_goals (exfalso; simp at h)
 
+/-- A refund (timeout / error acknowledgement) emits a deposit only for a withdrawal that came
+    from a rollup, only to a bridge account, in that bridge's asset and rollup, for exactly the
+    refunded amount and together with the equal credit. -/
+theorem refund_deposit_backed (s : State) (p : RefundPacket) (fx : List Effect) (d : Deposit)
+    (hp : refundPlan s p = some fx) (h : Effect.deposit d ∈ fx) :
+    Effect.credit d.bridge d.asset d.amount ∈ fx ∧ p.memo = .fromRollup ∧
+    ∃ b, lookup s.bridges d.bridge = some b ∧ b.asset = d.asset ∧ b.rollup = d.rollup ∧
+      d.amount = p.amount := by
+  unfold refundPlan at hp
+  cases hs : p.sender with
+  | none => simp [hs] at hp
+  | some rcpt =>
+    simp only [hs] at hp
+    cases hd : refundDeposit s rcpt p with
+    | none => simp [hd] at hp
+    | some depFx =>
+      simp only [hd] at hp
+      injection hp with hp; subst hp
+      simp only [List.mem_append] at h
+      rcases h with h | h
+      · unfold refundDeposit at hd
+        split at hd
+        · rename_i hm
+          split at hd
+          · cases hd
+          · rename_i b hb
+            split at hd
+            · cases hd
+            · rename_i hasset
+              injection hd with hd; subst hd
+              simp only [List.mem_singleton] at h
+              injection h with h; subst h
+              refine ⟨?_, hm, b, hb, by simpa using hasset, rfl, rfl⟩
+              simp [refundMoves]
+        · injection hd with hd; subst hd; simp at h
+      · exfalso
+        unfold refundMoves at h
+        simp only [List.mem_append, List.mem_singleton] at h
+        rcases h with h | h
+        · split at h <;> simp at h
+        · cases h
+
 /-- A received packet emits a deposit only for a bridge-account recipient, in that bridge's
     asset and rollup, for exactly the packet's amount, together with the equal credit. -/
 theorem recv_deposit_backed (s : State) (p : RecvPacket) (fx : List Effect) (d : Deposit)
